@@ -1,22 +1,29 @@
 //! C10 — restarting from persisted state is safe at every crash point.
 //!
-//! Scenarios over 3 real nodes 0 -1- 2 (sim engine): payments in flight in both directions and over one
-//! or two hops, every peer message delivered separately, node `t` (the node under test, any of the
-//! three) persisting its monitors asynchronously with out-of-order completion.  After EVERY op the
-//! harness takes a numbered durable point of `t`: the serialized ChannelManager, every serialized
-//! ChannelMonitor, the ids chain::Watch still reports pending, and — through verif_hooks — the numbers
-//! `from_channel_manager_data` will compare (channel side and monitor side).
+//! Scenarios over real nodes (sim engine), two topologies: a line 0 -c0- 1 -c1- 2, and a "Y" 0 -c0- 2, 1 -c1- 2, 2 -c2- 3
+//! with TWO inbound channels into node 2 whose HTLC ids both count from 0 (ids collide across channels; some Y scenarios
+//! start with a scripted lock-step prefix: HTLC (c0,0) forwarded over c2 and left pending, HTLC (c1,0) committed and decoded
+//! into node 2's to-forward queue but not forwarded, then node 2 pays over c2 itself / had force-closed c2).  Payments in
+//! flight in all directions, every peer message delivered separately, inbound HTLCs decoded (`decode`) and forwarded (`fwd`)
+//! as separate ops, the application may force-close a channel, node `t` (the node under test) persists its monitors
+//! asynchronously with out-of-order completion.  After EVERY op the harness takes a numbered durable point of `t`: the
+//! serialized ChannelManager (as production writes it, and as a build that can take the reconstruct-from-monitors reload
+//! path writes it — hook H12), every serialized ChannelMonitor, the ids chain::Watch still reports pending, through
+//! verif_hooks the numbers `from_channel_manager_data` will compare, the manager's QUEUED forwards (forward_htlcs /
+//! pending_intercepted_htlcs / decode_update_add_htlcs entries by previous hop) and each monitor's forwarded HTLCs.
 //!
-//! A *crash world* = (crash point p, manager written at an earlier point q ≤ p, per channel a monitor
-//! copy from a point p' ≤ p).  It is *admissible* when each monitor copy contains at least every update
-//! of the contiguous prefix reported complete at p (an InProgress write may or may not be on disk).
-//! For a sample (quick) / all (thorough) worlds the scenario is re-run from its seed up to p in a fresh
-//! `Net`, node t is restarted from (manager bytes of q, monitor bytes of the p'), and we observe
-//!   Ok / Err(DangerousValue), the channels closed with ClosureReason::OutdatedChannelManager, the
-//!   ChannelMonitorUpdates handed to the new chain::Watch right after the restart (replays, close update).
-//! Op line (the abstract world with the numbers read from the real objects):
+//! A *crash world* = (crash point p, manager written at an earlier point q ≤ p, per channel a monitor copy from a point
+//! p' ≤ p, reload path).  It is *admissible* when each monitor copy contains at least every update of the contiguous prefix
+//! reported complete at p (an InProgress write may or may not be on disk).  For a stratified sample (quick; with directed
+//! strata for "forwards queued + some channel closed at load" and "HTLC id collision across inbound channels") / a larger
+//! one (thorough) the scenario is re-run from its seed up to p in a fresh `Net`, node t is restarted from those bytes, and
+//! we observe Ok / Err(DangerousValue), the channels closed with ClosureReason::OutdatedChannelManager, the
+//! ChannelMonitorUpdates handed to the new chain::Watch right after the restart, and the forwards still queued.
+//! Op lines (the abstract world with the numbers read from the real objects):
 //!   reload <n> (<latestId> <unblockedId> <holder> <cp> <revokedCp> <in-flight ids> <monId> <monHolder> <monCp> <monMinSecret>)*n
-//!     -> err | ok (closed:<replay>:<closeId> | resumed:<replay>)*n
+//!     -> err | ok (closed:<replay>:<closeId> | resumed:<replay>)*n             (channels the manager copy still has)
+//!   reconcile <queued forwards chan:id,..> <awaiting decode chan:id,..> <forwarded HTLCs (previous hops) of the monitors of the channels closed at load>
+//!     -> <forwards still queued> | <still awaiting decode>                      (legacy = production reload path)
 //! plus, on the reference run of every scenario, the run model's state tracked against the live node:
 //!   init/upd/jump/release/complete/notify <chan> ..., state <chan> -> <latest> <watch> <in-flight> <chan nums> <monitor nums>
 //! After the restart(s) the application retries the claim / fail-back decisions it took before the crash (as
@@ -28,12 +35,16 @@
 //!     OutdatedChannelManager, is no longer listed, and t sends no update/commitment/revocation on it;
 //!   * a second crash during recovery (restart again at once, from the same manager and either the same
 //!     monitors or the monitors as they are after the replay) gives the same outcome;
-//!   * after reconnect + settle: no payment is both sent and failed; when no channel was closed every HTLC
-//!     is resolved, every payment has a terminal event at its sender, node 1's Σ value_to_self did not
-//!     decrease (net of what it paid / was paid itself), no protocol error was emitted, and every channel of t with
-//!     nothing blocked or in flight is in sync with its monitor (same update id and commitment numbers).
+//!   * after reconnect + settle, in EVERY world (closed channels included): every HTLC still committed on an inbound channel
+//!     of t is backed by an outbound HTLC one of t's monitors tracks — an HTLC that was only QUEUED for forwarding at the crash
+//!     was forwarded or failed back, never forgotten ("HTLC stuck on inbound channel after restart": channel, id, world);
+//!     no payment is both sent and failed;
+//!   * when no channel was closed: every HTLC is resolved, every payment has a terminal event at its sender, the forwarding
+//!     node's Σ value_to_self did not decrease (net of what it paid / was paid itself), no protocol error was emitted, and
+//!     every channel of t with nothing blocked or in flight is in sync with its monitor (same update id and numbers).
 //! Known findings (known_findings.txt) are recognised by an implementation-side pattern on the world and tagged
-//! KF-C10-1 / KF-C10-2 / KF-C10-3; the same symptom outside the pattern is reported untagged.
+//! KF-C10-1 / -2 / -3 / -4 (the last one on the non-production reload path only); the same symptom outside the pattern is
+//! reported untagged.  VERIF_C10_WORLD="sc:p:q:monpts" VERIF_TRACE=2 replays one world.
 use ldk_verif_harness::common::*;
 use ldk_verif_harness::sim::*;
 use lightning::chain::ChannelMonitorUpdateStatus;
@@ -60,7 +71,7 @@ impl ChanView {
 }
 /// `queued_fwd` / `queued_dec`: previous hops (channel index, htlc id) of the AddHTLC entries in the manager's forward_htlcs /
 /// pending_intercepted_htlcs, resp. of the update_adds still in decode_update_add_htlcs (committed inbound, not yet forwarded)
-struct Point { mgr: Vec<u8>, mons: Vec<Vec<u8>>, views: Vec<ChanView>, trace_len: usize, n_pays: usize, op: String, queued_fwd: Vec<(usize, u64)>, queued_dec: Vec<(usize, u64)> }
+struct Point { mgr: Vec<u8>, mgr_rebuild: Vec<u8>, mons: Vec<Vec<u8>>, views: Vec<ChanView>, trace_len: usize, n_pays: usize, op: String, queued_fwd: Vec<(usize, u64)>, queued_dec: Vec<(usize, u64)> }
 
 /// (queued forwards, awaiting decode) of node i's live manager, from the persisted-state dump (hook of C12)
 fn queued_of(net: &Net, i: usize) -> (Vec<(usize, u64)>, Vec<(usize, u64)>) {
@@ -87,6 +98,10 @@ fn chans_of(net: &Net, t: usize) -> Vec<(usize, usize, ChannelId)> {
 
 fn take_point(net: &Net, t: usize, op: String) -> Point {
 	let mgr = net.nodes[t].node.encode();
+	// the same manager as a build that can take the reconstruct-from-monitors reload path writes it (committed inbound update_adds, TLV 75)
+	vh::WRITE_INBOUND_COMMITTED_UPDATE_ADDS.store(true, std::sync::atomic::Ordering::Relaxed);
+	let mgr_rebuild = net.nodes[t].node.encode();
+	vh::WRITE_INBOUND_COMMITTED_UPDATE_ADDS.store(false, std::sync::atomic::Ordering::Relaxed);
 	let mut mons = vec![];
 	let mut views = vec![];
 	for (ci, peer, cid) in chans_of(net, t) {
@@ -102,7 +117,7 @@ fn take_point(net: &Net, t: usize, op: String) -> Point {
 		});
 	}
 	let (queued_fwd, queued_dec) = queued_of(net, t);
-	Point { mgr, mons, views, trace_len: net.trace.len(), n_pays: net.pays.len(), op, queued_fwd, queued_dec }
+	Point { mgr, mgr_rebuild, mons, views, trace_len: net.trace.len(), n_pays: net.pays.len(), op, queued_fwd, queued_dec }
 }
 
 /// topology 0: line 0 -c0- 1 -c1- 2.   topology 1: "Y" 0 -c0- 2, 1 -c1- 2, 2 -c2- 3 (two inbound channels into node 2,
@@ -279,6 +294,15 @@ fn seen_line(s: &Seen, open_q: &[usize]) -> String {
 	}
 }
 
+/// a known finding: every occurrence is counted, the first few per finding are reported (the failure list of a run is capped
+/// and must stay available for anything that is NOT a known finding)
+fn kf_fail(rec: &mut Rec, counts: &mut BTreeMap<String, u64>, text: String) {
+	let id: String = text.chars().take(8).collect();
+	let n = counts.entry(id).or_insert(0);
+	*n += 1;
+	if *n <= 4 { rec.oracle_fail(text); }
+}
+
 fn sum_value_to_self(net: &Net, n: usize) -> Option<u64> {
 	let mut s = 0;
 	for (_, peer, cid) in chans_of(net, n) { s += vh::channel_value_to_self_msat(net.nodes[n].node, &net.ids[peer], &cid)?; }
@@ -297,6 +321,7 @@ fn main() {
 	let worlds_per_scen = if args.thorough { 200 } else { 70 }; // a leaked Net per world: memory bounds the thorough tier
 	let mut n_worlds = 0u64; let mut n_adm = 0u64; let mut n_closed = 0u64; let mut n_replay = 0u64; let mut n_second = 0u64; let mut n_settled = 0u64;
 	let mut nondet = 0u64; let mut late_panics = 0u64;
+	let mut kf_counts: BTreeMap<String, u64> = BTreeMap::new();
 	for sc in 0..n_scen {
 		let seed = rng.next();
 		// even scenarios: line of 3 nodes; odd scenarios: 4 nodes, two inbound channels into node 2 (colliding HTLC ids)
@@ -362,17 +387,23 @@ fn main() {
 			let bucket = |w: &World| -> usize {
 				if !w.admissible { return 3; }
 				let queued_open = pts[w.q].queued_fwd.iter().chain(pts[w.q].queued_dec.iter()).any(|(ci, _)| my.iter().position(|m| m.0 == *ci).map(|k| !closed_at_load(w, k)).unwrap_or(false));
-				if queued_open && (0..my.len()).any(|c| closed_at_load(w, c)) { 4 }
+				// bucket 5 (directed): ... and a closed channel's monitor copy lists, as already forwarded, an HTLC with the SAME id from a
+				// DIFFERENT inbound channel, while the queued one itself is not listed (HTLC ids collide across inbound channels)
+				let closed_hops: Vec<(usize, u64)> = (0..my.len()).filter(|c| closed_at_load(w, *c)).flat_map(|c| pts[w.mon_pts[c]].views[c].prev_hops.clone()).collect();
+				let collision = pts[w.q].queued_fwd.iter().chain(pts[w.q].queued_dec.iter()).any(|(ci, id)| my.iter().position(|m| m.0 == *ci).map(|k| !closed_at_load(w, k)).unwrap_or(false)
+					&& !closed_hops.contains(&(*ci, *id)) && closed_hops.iter().any(|(cj, idj)| idj == id && cj != ci));
+				if collision { 5 }
+				else if queued_open && (0..my.len()).any(|c| closed_at_load(w, c)) { 4 }
 				else if (0..my.len()).any(|c| closed_at_load(w, c)) { 2 } else if w.q == w.p { 0 } else { 1 }
 			};
-			let quota = [worlds_per_scen * 5 / 20, worlds_per_scen * 5 / 20, worlds_per_scen * 3 / 20, worlds_per_scen * 3 / 20, worlds_per_scen * 4 / 20];
-			let mut taken = [0usize; 5];
+			let quota = [worlds_per_scen * 5 / 20, worlds_per_scen * 5 / 20, worlds_per_scen * 3 / 20, worlds_per_scen * 3 / 20, worlds_per_scen * 2 / 20, worlds_per_scen * 2 / 20];
+			let mut taken = [0usize; 6];
 			let mut per_key: BTreeMap<String, usize> = BTreeMap::new();
 			let mut keep = vec![]; let mut rest = vec![];
 			for w in worlds.drain(..) {
 				let b = bucket(&w); let k = key(&w);
 				let n = per_key.entry(k).or_insert(0);
-				if taken[b] < quota[b] && *n < (if b == 4 { 4 } else { 2 }) { taken[b] += 1; *n += 1; keep.push(w); } else { rest.push(w); }
+				if taken[b] < quota[b] && *n < (if b >= 4 { 4 } else { 2 }) { taken[b] += 1; *n += 1; keep.push(w); } else { rest.push(w); }
 			}
 			for w in rest { if keep.len() >= worlds_per_scen { break; } keep.push(w); }
 			worlds = keep;
@@ -386,7 +417,7 @@ fn main() {
 			let (mut net, wpts, _, decided) = match r { Ok(x) => x, Err(e) => { rec.oracle_fail(format!("{}: re-run panicked: {}", tag, e.chars().take(160).collect::<String>())); continue; } };
 			// the re-run must have reached the same durable points (hash-map iteration order may differ between runs)
 			if wpts.len() != w.p + 1 || (0..=w.p).any(|k| wpts[k].views != pts[k].views || wpts[k].queued_fwd != pts[k].queued_fwd || wpts[k].queued_dec != pts[k].queued_dec) { nondet += 1; rec.discarded += 1; std::mem::forget(net); continue; }
-			let mgr = &wpts[w.q].mgr;
+			let mgr = if w.rebuild { &wpts[w.q].mgr_rebuild } else { &wpts[w.q].mgr };
 			let mons: Vec<Vec<u8>> = (0..my.len()).map(|k| wpts[w.mon_pts[k]].mons[k].clone()).collect();
 			let qv = &wpts[w.q].views;
 			let mv: Vec<&ChanView> = (0..my.len()).map(|k| &wpts[w.mon_pts[k]].views[k]).collect();
@@ -417,13 +448,19 @@ fn main() {
 			if has_replay { n_replay += 1; }
 			// ---- reconciliation of queued forwards with the monitors of the channels that are closed at load time (legacy reload
 			// path): what the manager copy had queued, what those monitors list as forwarded, what is still queued after the read
+			// KF-C10-4 pattern (reconstruct_manager_from_monitors reload path only): right after the read the same inbound HTLC is
+			// waiting to be decoded twice — once rebuilt from the channel's committed inbound HTLCs, once released from
+			// monitor_pending_update_adds when the in-flight monitor update it was waiting for completes
+			let kf4 = w.rebuild && { let (_, d) = queued_of(&net, t); d.windows(2).any(|x| x[0] == x[1]) };
+			let kf4_text = "KF-C10-4 reconstruct_manager_from_monitors reload path (not the production path) decodes an inbound HTLC twice: the manager was written while the HTLC's revoke_and_ack monitor update was in progress, the read rebuilds it from the channel's committed inbound HTLCs and monitor_updating_restored releases it again from monitor_pending_update_adds; it is forwarded twice";
 			if !w.rebuild {
 				let refs = |v: &Vec<(usize, u64)>| -> String { if v.is_empty() { "-".into() } else { v.iter().map(|(c, i)| format!("{}:{}", c, i)).collect::<Vec<_>>().join(",") } };
 				let mut mons_h: Vec<(usize, u64)> = vec![];
 				for k in 0..my.len() { if pre_closed[k] || chans[k].0 { mons_h.extend(mv[k].prev_hops.iter().cloned()); } }
 				mons_h.sort(); mons_h.dedup();
-				let (kept_f, kept_d) = queued_of(&net, t);
 				let q0 = &wpts[w.q];
+				// (an inbound HTLC that was still waiting for a monitor update at q may enter the queues during the restart: not compared)
+				let (kept_f, kept_d) = { let (f, d) = queued_of(&net, t); (f.into_iter().filter(|x| q0.queued_fwd.contains(x)).collect::<Vec<_>>(), d.into_iter().filter(|x| q0.queued_dec.contains(x)).collect::<Vec<_>>()) };
 				if !(q0.queued_fwd.is_empty() && q0.queued_dec.is_empty()) {
 					let collide = q0.queued_fwd.iter().chain(q0.queued_dec.iter()).any(|(c, i)| mons_h.iter().any(|(mc, mi)| mi == i && mc != c));
 					let hit = q0.queued_fwd.iter().chain(q0.queued_dec.iter()).any(|x| mons_h.contains(x));
@@ -437,7 +474,8 @@ fn main() {
 			// preimage update jumped ahead of the blocked ones (their ids were bumped): same id, different content
 			let kf3 = open_q.iter().any(|&k| { let c = qv[k].chan.unwrap(); c[5] > 0 && !chans[k].0 && mv[k].mon_id > c[1] && jumps[k].iter().any(|j| w.q < *j && *j <= w.mon_pts[k]) });
 			let kf3_text = "KF-C10-3 blocked monitor update dropped although the monitor never received it: a preimage update took the blocked update's id after the manager was written (ids of blocked updates are renumbered), so manager and monitor agree on the id but not on the content; on_startup_drop_completed_blocked_mon_updates_through discards the held revoke_and_ack update and the monitor permanently misses that revocation secret / counterparty commitment";
-			let mut any_closed = false;
+			// the application force-closed a channel before the crash: peers may have closed it too, whatever was persisted
+			let mut any_closed = wpts.iter().any(|x| x.op.starts_with("force-close"));
 			for k in 0..my.len() {
 				if pre_closed[k] { any_closed = true; continue; } // closed before the manager was written
 				let older = qv[k].chan.unwrap()[0] < mv[k].mon_id;
@@ -451,7 +489,7 @@ fn main() {
 			// second crash during recovery
 			let mut mon2_ids: Option<Vec<u64>> = None;
 			let mut closed2: Vec<bool> = vec![false; my.len()];
-			if (w.p + w.q) % 2 == 0 {
+			if (w.p + w.q) % 2 == 0 && std::env::var("VERIF_C10_NO_SECOND").is_err() {
 				n_second += 1;
 				let same_mons = (w.p + w.q) % 4 == 0;
 				let mons2: Vec<Vec<u8>> = if same_mons { mons.clone() } else { my.iter().map(|(_, _, cid)| net.nodes[t].chain_monitor.chain_monitor.get_monitor(*cid).unwrap().encode()).collect() };
@@ -494,7 +532,8 @@ fn main() {
 				net.settle(8);
 			}));
 			if let Err(e) = fin {
-				if kf3 { rec.oracle_fail(format!("{} :: {} [{}] :: panic while settling after the restart: {}", kf3_text, tag, op, e.chars().take(120).collect::<String>())); }
+				if kf4 { kf_fail(&mut rec, &mut kf_counts, format!("{} :: {} [{}] :: panic while settling after the restart: {}", kf4_text, tag, op, e.chars().take(120).collect::<String>())); }
+				else if kf3 { kf_fail(&mut rec, &mut kf_counts, format!("{} :: {} [{}] :: panic while settling after the restart: {}", kf3_text, tag, op, e.chars().take(120).collect::<String>())); }
 				else { rec.oracle_fail(format!("{}: panic while settling after the restart: {}", tag, e.chars().take(200).collect::<String>())); }
 				std::mem::forget(net); continue;
 			}
@@ -525,7 +564,7 @@ fn main() {
 				if any_closed && from_t {
 					// KF-C10-2: the stale manager still lists the payment's HTLC, the newer monitor no longer does (fulfilled and fully
 					// removed, or its PaymentSent already released): from_channel_manager_data fails it back => PaymentFailed
-					rec.oracle_fail(format!("KF-C10-2 a stale ChannelManager reports PaymentFailed for an outbound payment that succeeded (PaymentSent was delivered): its HTLC is pending in the old manager and no longer present in the newer ChannelMonitor, so the force-close path fails it back :: {} [{}] payment {}", tag, op, hex(&h[..4])));
+					kf_fail(&mut rec, &mut kf_counts, format!("KF-C10-2 a stale ChannelManager reports PaymentFailed for an outbound payment that succeeded (PaymentSent was delivered): its HTLC is pending in the old manager and no longer present in the newer ChannelMonitor, so the force-close path fails it back :: {} [{}] payment {}", tag, op, hex(&h[..4])));
 				} else { fails.push(format!("{}: payment {} is both PaymentSent and PaymentFailed", tag, hex(&h[..4]))); }
 			}
 			// t must not continue a closed channel
@@ -573,20 +612,26 @@ fn main() {
 					}
 				}
 			}
+			if kf4 && (!out_of_sync.is_empty() || !fails.is_empty()) {
+				let first = fails.first().or(out_of_sync.first()).unwrap().clone();
+				kf_fail(&mut rec, &mut kf_counts, format!("{} :: {} [{}] :: {} symptoms, first: {}", kf4_text, tag, op, out_of_sync.len() + fails.len(), first));
+				fails.clear(); out_of_sync.clear();
+			}
 			if kf3 && (!out_of_sync.is_empty() || !fails.is_empty()) {
 				let first = out_of_sync.first().or(fails.first()).unwrap().clone();
-				rec.oracle_fail(format!("{} :: {} [{}] :: {} symptoms, first: {}", kf3_text, tag, op, out_of_sync.len() + fails.len(), first));
+				kf_fail(&mut rec, &mut kf_counts, format!("{} :: {} [{}] :: {} symptoms, first: {}", kf3_text, tag, op, out_of_sync.len() + fails.len(), first));
 				fails.clear(); out_of_sync.clear();
 			}
 			fails.extend(out_of_sync);
 			if kf1 && fails.iter().any(|f| f.contains("HTLCs pending") || f.contains("HTLC stuck")) {
-				rec.oracle_fail(format!("KF-C10-1 channel stays paused after a restart that drops completed blocked monitor updates: the manager was written with blocked updates and nothing in flight, the monitor on disk contains them all, no MonitorUpdatesComplete is queued, revoke_and_ack is never sent :: {} [{}] :: {} symptoms, first: {}", tag, op, fails.len(), fails[0]));
+				kf_fail(&mut rec, &mut kf_counts, format!("KF-C10-1 channel stays paused after a restart that drops completed blocked monitor updates: the manager was written with blocked updates and nothing in flight, the monitor on disk contains them all, no MonitorUpdatesComplete is queued, revoke_and_ack is never sent :: {} [{}] :: {} symptoms, first: {}", tag, op, fails.len(), fails[0]));
 			} else { for f in fails { rec.oracle_fail(f); } }
 			if trace_on && std::env::var("VERIF_TRACE").map(|v| v == "2").unwrap_or(false) { for (k, o) in net.trace.iter().enumerate() { if k == trace_mark { eprintln!("      ---------------- crash"); } if !matches!(o, Obs::Balance { .. }) { eprintln!("      {}", fmt_obs(o)); } } }
 			std::mem::forget(net);
 		}
 	}
-	rec.notes.insert("rule".into(), "crash worlds = (crash point after any op of a 3-node payment scenario with asynchronous, out-of-order monitor persistence at the node under test) x (manager bytes of any earlier point) x (per channel any monitor copy between the completed prefix and the last update handed to chain::Watch), plus monitors older than that (stale-monitor class, DangerousValue expected, no oracles); each world re-runs the scenario in a fresh Net and restarts the real node from those bytes; distinct by op text (the abstract world)".into());
+	rec.notes.insert("rule".into(), "crash worlds = (crash point after any op of a 3-node line or 4-node Y payment scenario — two inbound channels with colliding HTLC ids, forwards queued but not forwarded, application force-closes — with asynchronous, out-of-order monitor persistence at the node under test) x (manager bytes of any earlier point) x (per channel any monitor copy between the completed prefix and the last update handed to chain::Watch) x (production / reconstruct-from-monitors reload path), plus monitors older than that (stale-monitor class, DangerousValue expected, no oracles); each world re-runs the scenario in a fresh Net and restarts the real node from those bytes; reconcile lines = the manager copy's queued forwards against the closed channels' monitors; distinct by op text (the abstract world)".into());
+	rec.notes.insert("known_findings_hit".into(), format!("{:?} (every occurrence counted; at most 4 per finding are listed)", kf_counts));
 	rec.notes.insert("worlds".into(), format!("worlds={} admissible={} with_replay={} with_closed_channel={} second_crash={} settled={} discarded_nondeterministic_rerun={} discarded_stale_monitor_panic_after_read={}", n_worlds, n_adm, n_replay, n_closed, n_second, n_settled, nondet, late_panics));
 	rec.finish();
 }
